@@ -202,7 +202,7 @@ def _shard_text(header, case_type, check, terms):
 def run_cases(prop, header, case_type, check, terms, shard=400, tag="cases"):
     """Evaluate [check] on every case term inside coqc.  Returns sorted mismatching
     indices.  Raises Infra if a shard does not compile (encoder bug, model broken)."""
-    d = os.path.join(BUILD, "cases", prop, tag)
+    d = os.path.join(BUILD, "cases", prop, "%s-%d" % (tag, os.getpid()))   # private to this run
     shutil.rmtree(d, ignore_errors=True)
     os.makedirs(d)
     files = []
@@ -232,7 +232,7 @@ def run_cases(prop, header, case_type, check, terms, shard=400, tag="cases"):
 
 def eval_in_coq(prop, header, expr, tag="explain"):
     """vm_compute one expression and return Coq's printed answer (for replay files)."""
-    d = os.path.join(BUILD, "cases", prop, tag)
+    d = os.path.join(BUILD, "cases", prop, "%s-%d" % (tag, os.getpid()))
     os.makedirs(d, exist_ok=True)
     f = os.path.join(d, "E%s.v" % hashlib.sha1(expr.encode()).hexdigest()[:10])
     with open(f, "w") as fh:
